@@ -8,7 +8,7 @@ from vlib import cN, clist, cbool
 IMPORTS = "From DtlsV Require Import Hs.C14Resume Hs.C14ResumeSound Hs.C14Run."
 SITE = "internal/flight/flight12 resumption (flight0/1/3/4/4b/5 handlers), conn.go notify/sessionKey"
 FAULTS = {"": "NoFault", "wrongpsk": "NoFault", "ems": "FEms", "sems": "FSEms", "alpn": "FAlpn",
-          "sverify": "FSVerify", "cverify": "FCVerify"}
+          "sverify": "FSVerify", "cverify": "FCVerify", "noccert": "FSPolicy"}
 
 
 class Ids:
@@ -195,6 +195,14 @@ def monitors(h):
             sid = c["sh_sid"][-1] if c["sh_sid"] else ""
             if sid and sid in post_s:
                 bad.append(("client-cert-session-stored", i, "server stored a session established with a client certificate"))
+        # M8 (repaired ordering of flight4Parse): the server's store gains an entry only from a full handshake that
+        # the server accepted, under the id of its ServerHello and with the master secret it ended with
+        for k2, e in post_s.items():
+            if k2 in pre_s and pre_s[k2] == e:
+                continue
+            if not (sok and mode == 0 and c["sh_sid"] and k2 == c["sh_sid"][-1] and e["sec"] == c["s_ms"]):
+                bad.append(("server-stored-unaccepted-session", i, "the server's store gained or changed an entry on a "
+                            "connection the server did not accept as a full handshake (s_out=%s)" % c["s_out"]))
         # observations (not statements of the property)
         if any(a.get("wrapped") and not a.get("enc") for a in c["alerts"]):
             note("fatal alert sent as an UNPROTECTED tls12_cid record (connection ids already committed)")
@@ -262,7 +270,7 @@ def hist_term(h):
         rs = rnd(c["sh_rand"][-1]) if c["sh_rand"] else rnd.fresh("rs%d" % i)
         params = "(mkParams %d %s %s %d %d %d %d %d %s %s %s %s %s %s)" % (
             bid(c["key"]), cbool(not st["no_cstore"]), cbool(not st["no_sstore"]), rc, rs, newsid, msc, mss,
-            cbool(st["client_auth"]), ccid, scid, FAULTS[st["fault"]], cbool(st["bh"] != "s_ccs"), cbool(st["bh"] != "c_ccs"))
+            cbool(st["client_auth"] or st["fault"] == "noccert"), ccid, scid, FAULTS[st["fault"]], cbool(st["bh"] != "s_ccs"), cbool(st["bh"] != "c_ccs"))
         cside = "(mkOSide %s %d %d %d %d %s %s)" % (
             c_outcome(c["c_out"]), sec(c["c_ms"]), rnd(c["c_rand_l"]), rnd(c["c_rand_r"]), bid(c["c_isid"]),
             c_opt(c["c_lcid"], cid), c_opt(c["c_rcid"], cid))
@@ -296,7 +304,8 @@ def slim(h):
 HOW = ("harness/overlay/root/zz_verif_c14_test.go: one client and one server share two instrumented in-memory session "
        "stores over the connections of `conns` (in order); before a connection the script applies `step.muts` to the "
        "stores, configures `step.fault` (ems/sems: ExtendedMasterSecret Require vs Disable; alpn: disjoint protocols; "
-       "sverify/cverify: VerifyConnection returns an error; wrongpsk: client PSK differs; `step.post` c_/s_ app0|ct99|enc99: "
+       "sverify/cverify: VerifyConnection returns an error; wrongpsk: client PSK differs; noccert: server requires "
+       "a client certificate, the client has none; `step.post` c_/s_ app0|ct99|enc99: "
        "after establishment ONE forged record - plaintext epoch-0 application_data, plaintext epoch-0 content type 99, "
        "or content type 99 sealed with the session keys - is delivered to the client/server, whose protected alert, "
        "if any, is opened with the peer's keys), drops every datagram of "
